@@ -21,6 +21,8 @@ fn leaf_src(kind: char, id: i64) -> String {
     match kind {
         'T' => format!("T({})", id),
         'F' => format!("F({})", id),
+        't' => "true".to_string(),
+        'f' => "false".to_string(),
         _ => match KINDS[(id as usize) % 6] {
             "div0" => format!("({} / 0 > 0)", 1000 + id),
             "overflow" => format!("(9223372036854775807 + {} > 0)", 1000 + id),
@@ -47,8 +49,8 @@ impl S {
             S::Leaf(k, id) => {
                 out.insert(*id);
                 match k {
-                    'T' => Some(true),
-                    'F' => Some(false),
+                    'T' | 't' => Some(true),
+                    'F' | 'f' => Some(false),
                     _ => None,
                 }
             }
@@ -106,9 +108,9 @@ impl S {
     }
 }
 
-/// counts[n] = trees with exactly n operators over 3 leaf kinds
-fn counts(max: usize) -> Vec<u128> {
-    let mut c = vec![3u128];
+/// counts[n] = trees with exactly n operators over `kinds` leaf kinds
+fn counts(max: usize, kinds: usize) -> Vec<u128> {
+    let mut c = vec![kinds as u128];
     for n in 1..=max {
         let mut t = 0u128;
         for i in 0..n {
@@ -124,9 +126,11 @@ fn counts(max: usize) -> Vec<u128> {
     c
 }
 
+const LEAF_KINDS: [char; 5] = ['T', 'F', 'E', 't', 'f'];
+
 fn unrank(c: &[u128], n: usize, mut i: u128) -> S {
     if n == 0 {
-        return S::Leaf(['T', 'F', 'E'][i as usize], 0);
+        return S::Leaf(LEAF_KINDS[i as usize], 0);
     }
     for op in 0..2 {
         for l in 0..n {
@@ -188,18 +192,37 @@ const CONTEXTS: [(&str, &str, &str); 15] = [
 
 pub fn run(run: &mut Run) {
     let max_ops = run.pick(3usize, 4usize);
-    let c = counts(max_ops);
+    let c = counts(max_ops, 3);
     let log = hosts::new_log();
     let mut ctx = Context::default();
     hosts::register(&mut ctx, "T", &Host::Const(MV::Bool(true)), &log);
     hosts::register(&mut ctx, "F", &Host::Const(MV::Bool(false)), &log);
     hosts::register(&mut ctx, "boom", &Host::Fail, &log);
+    // the same trees with the boolean literals `true` / `false` as two more leaf kinds (a parser or
+    // evaluator that special-cases literal operands must still skip the other operands); trees
+    // without a literal leaf are the family above and are not repeated. The largest size runs
+    // in 3 of the 15 contexts.
+    let lit_ops = run.pick(2usize, 3usize);
+    let c5 = counts(lit_ops, 5);
+    for pass in 0..2 {
+    let (c, max_ops) = if pass == 0 { (c.clone(), max_ops) } else { (c5.clone(), lit_ops) };
     for n in 0..=max_ops {
-        run.sub(&format!("trees-{}op", n));
+        run.sub(&format!("{}-{}op", if pass == 0 { "trees" } else { "trees-with-literals" }, n));
         let cnt = c[n];
         let mut i: u128 = 0;
         while i < cnt {
-            for (cname, pre, post) in CONTEXTS.iter() {
+            if pass == 1 {
+                let mut l = vec![];
+                unrank(&c, n, i).leaves(&mut l);
+                if !l.iter().any(|(k, _)| *k == 't' || *k == 'f') {
+                    i += 1;
+                    continue;
+                }
+            }
+            for (ci, (cname, pre, post)) in CONTEXTS.iter().enumerate() {
+                if pass == 1 && n == 3 && !(ci == 0 || ci == 1 || ci == 14) {
+                    continue;
+                }
                 if !run.take() {
                     continue;
                 }
@@ -268,5 +291,6 @@ pub fn run(run: &mut Run) {
             }
             i += 1;
         }
+    }
     }
 }
